@@ -26,6 +26,9 @@ class Inputs:
         self.pre = []
         self.vars = {}          # name -> ("codes"|"float"|"int"|"bool", [z3 vars...], dtype)
         self.concrete = concrete  # dict name -> list of python values (concrete mode) or None
+        if concrete is None:
+            from .runtime import FC
+            FC.current_pre = self.pre      # feasibility checks of raising glue paths use the case's preconditions
 
     # each creator returns a python list of cells
     def codes(self, name, n, G, allow_null=True):
